@@ -15,7 +15,7 @@ RULE = (
     'surrounding whitespace incl. \\n and exotic spaces, country/format prefixes added/stripped/lower-cased/'
     'followed by newline, every ASCII separator and whitespace character inserted at every position, every key '
     'of stdnum.util._char_map inserted at every position and substituted for its ASCII equivalent, whole-number '
-    'look-alike respelling, separators/whitespace REPLACING a character (optionally with one re-randomised digit), second-order decorations of accepted presentations, table-driven inputs (every member of the tables of the module - court names and aliases, codes, letters - put in the place of the table member found in a valid number), own-prefix inputs (numbers whose body itself begins with a prefix that the module strips or carries, with and without that prefix), self-similar inputs (a substring of the number copied in any case over / into another part of it), common.mutations, every digit/A/X inserted or substituted and every character deleted at every position of the first numbers) x every '
+    'look-alike respelling, separators/whitespace REPLACING a character (optionally with one re-randomised digit), second-order decorations of accepted presentations, table-driven inputs (every member of the tables of the module - court names and aliases, codes, letters - put in the place of the table member found in a valid number), own-prefix inputs (numbers whose body itself begins with a prefix that the module strips or carries, with and without that prefix), self-similar inputs (a substring of the number copied in any case over / into another part of it), GS1-128 element strings of 2-5 identifiers from the C16 generator under every separator option, common.mutations, every digit/A/X inserted or substituted and every character deleted at every position of the first numbers) x every '
     'keyword option set of validate.  For each accepted x (v = validate(x, **o) returned a str): '
     'validate(v, **o) must return exactly v, and v == v.strip().  ' + G.NONTRIVIAL_RULE)
 
@@ -75,6 +75,8 @@ def _worker(task):
         if o[0] == 'ok' and isinstance(o[1], str):
             for site, observed, relation in _check_value(mod, rf, o[1], kw):
                 nviol += 1
+                if kw:      # a failure that needs a non-default option is a site of its own
+                    site = '%s[%s]' % (site, ','.join(sorted(kw)))
                 fnd.add(modname, 'validate', site, G.wsize(kw, x), repr((x, G.kw_key(kw)))[:300],
                         lambda: G.make_case(modname, 'validate', [x], kw, observed, EXPECT, site, relation,
                                             generator=gen))
@@ -166,6 +168,25 @@ def _worker(task):
         for lab, y in G.own_prefix_numbers(mod, valid_all, rng, P['ownprefix']):
             for kw in opts:
                 check('own-prefix' if not kw else 'option:' + ','.join(sorted(kw)), y, kw)
+    # GS1-128 element strings: the property is stated for every documented option, and `separator` only matters
+    # for strings of several variable-length elements, which no documentation sample contains; they are built by
+    # the generator of the C16 engine (values at minimum / maximum / just-below-maximum length)
+    if modname == 'stdnum.gs1_128' and part == 0:
+        import c16
+        table = c16.ais()
+        keys = sorted(table)
+        variable = [k for k in keys if table[k].fnc1]
+        for _ in range(150 if tier == 'quick' else 1500):
+            k = rng.choice([2, 3, 3, 4, 5])
+            chosen = rng.sample(variable, min(k, len(variable))) if rng.random() < 0.6 else rng.sample(keys, k)
+            items = [c16.gen_item(rng, table[ai], rng.choice(['any', 'max', 'max', 'min'])) for ai in chosen]
+            if any(v is None for ai, v, t, tg in items):
+                continue
+            order = list(range(len(items)))
+            rng.shuffle(order)
+            for sep in ('\x1d', '^', '[FNC1]', ''):
+                x = c16.handbuilt(items, sep, False, order, set(), set())[0]
+                check('gs1-elements', x, {'separator': sep} if sep else {})
     # second order: decorate accepted presentations again
     if accepted_pool:
         for _ in range(P['double'] // nparts + 1):
